@@ -105,6 +105,8 @@ func lstr(r int64) string {
 		return "timeout"
 	case 7:
 		return "closeErr"
+	case 900:
+		return "PANIC"
 	}
 	return "ioerr"
 }
@@ -168,6 +170,32 @@ func genLprog(r *hv.Rand) lprog {
 		p.ths[i] = append(p.ths[i], lop{k: 1, ret: -1})
 	}
 	return p
+}
+
+// guard runs f; a panic in the code under test becomes result 900
+func guard(f func() int64) (res int64) {
+	defer func() {
+		if e := recover(); e != nil {
+			notePanic(fmt.Sprint(e))
+			res = 900
+		}
+	}()
+	return f()
+}
+
+// bounded runs f in its own goroutine and waits at most d for it
+func bounded(d time.Duration, f func()) bool {
+	done := make(chan struct{})
+	go func() {
+		defer func() { recover(); close(done) }()
+		f()
+	}()
+	select {
+	case <-done:
+		return true
+	case <-time.After(d):
+		return false
+	}
 }
 
 func lblockedState(st string, ioBusy bool) bool {
@@ -251,18 +279,18 @@ func runClientProgram(env *lifeEnv, class string, p lprog, r *hv.Rand) {
 			for j := range p.ths[i] {
 				o := &p.ths[i][j]
 				atomic.StoreInt64(&o.c, stamp.Add(1))
-				var res int64
-				switch o.k {
-				case 0:
-					res = lcode(cl.Handshake())
-				case 1:
-					res = lcode(cl.Close())
-				case 2:
-					_, err := cl.ReadMsg(buf[i])
-					res = lcode(err)
-				case 3:
-					res = lcode(cl.WriteMsg([]byte("hello")))
-				}
+				res := guard(func() int64 {
+					switch o.k {
+					case 0:
+						return lcode(cl.Handshake())
+					case 1:
+						return lcode(cl.Close())
+					case 2:
+						_, err := cl.ReadMsg(buf[i])
+						return lcode(err)
+					}
+					return lcode(cl.WriteMsg([]byte("hello")))
+				})
 				atomic.StoreInt64(&o.ret, res)
 				atomic.StoreInt64(&o.r, stamp.Add(1))
 			}
@@ -324,10 +352,11 @@ func runClientProgram(env *lifeEnv, class string, p lprog, r *hv.Rand) {
 	}
 	runs := hsRuns.Load()
 	common.SetVerifYield(nil)
-	// cleanup
-	cl.Close()
+	// cleanup (bounded: a Close that hangs is an observation of the run above, not a driver hang)
+	cleanOK := bounded(2*time.Second, func() { cl.Close() })
+	cu.Close()
 	if srv != nil {
-		srv.Close()
+		cleanOK = bounded(2*time.Second, func() { srv.Close() }) && cleanOK
 	}
 	serverUDP.Close()
 	done := make(chan struct{})
@@ -335,7 +364,10 @@ func runClientProgram(env *lifeEnv, class string, p lprog, r *hv.Rand) {
 	leaked := false
 	select {
 	case <-done:
-	case <-time.After(3 * time.Second):
+	case <-time.After(time.Second):
+		leaked = true
+	}
+	if !cleanOK {
 		leaked = true
 	}
 	goAfter := settleGoroutines(goBefore)
@@ -358,6 +390,9 @@ func runClientProgram(env *lifeEnv, class string, p lprog, r *hv.Rand) {
 		for _, o := range t {
 			if o.c == 0 {
 				continue
+			}
+			if o.ret == 900 {
+				fail("C17:panic", fmt.Sprintf("T%d %s panicked: %s", i, lopName[o.k], lastPanic()))
 			}
 			if o.k == 1 {
 				anyClose = true
